@@ -5,12 +5,14 @@ import PkVerif.Model.Replica
 
     stores <n>                                 n ≤ 8 empty sub-stores (memory stores behind fault wrappers)
     put <i> <key> <content>                    sub-store i receives the blob directly
+    puttr <i> <key> <content>                  sub-store i is left with a TRUNCATED copy (one byte short; content non-empty)
     cfg <min|-> <w,…|-> <r,…|->               blobserver.CreateStorage("replica", {backends, readBackends, minWritesForSuccess})
     down <i> <0|1>                             reads/removes on sub-store i fail
     recv <key> <content> <pos:kind,…> <run|cancel>
                                                ReceiveBlob with the results arriving in the given order;
                                                kind ∈ ok | ws (stores, reports size+1) | w0 (does not store,
-                                               reports size+1) | err (does not store) | es (stores, then errors);
+                                               reports size+1) | err (does not store) | es (stores, then errors) |
+                                               tr (leaves a truncated copy, reports its size; content non-empty);
                                                `cancel`: the caller cancels ctx when ReceiveBlob returns
     fetch <key> | stat <key,…|-> <order|-> | enum <after|-> <limit> | remove <key,…|-> | dump
 -/
@@ -48,16 +50,17 @@ def showNats (l : List Nat) : String := if l.isEmpty then "-" else ",".intercala
 def showSRs (l : List SR) : String :=
   if l.isEmpty then "-" else ",".intercalate (l.map (fun e => s!"{toHexString e.1}:{e.2}"))
 
-def parseKind (size : Nat) (pos : Nat) (k : String) : Option Res :=
+def parseKind (size : Nat) (pos : Nat) (k : String) : Option (Res × Bool) :=
   match k with
-  | "ok" => some ⟨pos, true, .ok size⟩
-  | "ws" => some ⟨pos, true, .ok (size + 1)⟩
-  | "w0" => some ⟨pos, false, .ok (size + 1)⟩
-  | "err" => some ⟨pos, false, .err⟩
-  | "es" => some ⟨pos, true, .err⟩
+  | "ok" => some (⟨pos, true, .ok size⟩, false)
+  | "ws" => some (⟨pos, true, .ok (size + 1)⟩, false)
+  | "w0" => some (⟨pos, false, .ok (size + 1)⟩, false)
+  | "err" => some (⟨pos, false, .err⟩, false)
+  | "es" => some (⟨pos, true, .err⟩, false)
+  | "tr" => if size ≥ 1 then some (⟨pos, false, .ok (size - 1)⟩, true) else none
   | _ => none
 
-def parseArrival (size : Nat) (w : String) : Option Res :=
+def parseArrival (size : Nat) (w : String) : Option (Res × Bool) :=
   match w.splitOn ":" with
   | [p, k] => match natArg p with
     | some pos => parseKind size pos k
@@ -93,6 +96,12 @@ def step (w : St) (ws : List String) : St × String :=
      | some i, some k, some c =>
        if i < w.subs.length then ({ w with subs := storeAt w.subs [i] (k, c.length) }, "ok") else (w, "bad-op")
      | _, _, _ => (w, "bad-op"))
+  | ["puttr", i, k, c] =>
+    (match natArg i, keyArg k, hexArg c with
+     | some i, some k, some c =>
+       if i < w.subs.length && c.length ≥ 1 then
+         ({ w with subs := storeAt w.subs [i] (k, c.length - 1) }, "ok") else (w, "bad-op")
+     | _, _, _ => (w, "bad-op"))
   | ["cfg", m, wl, rl] =>
     (match (if m == "-" then some none else (intArg m).map some), natList wl, natList rl with
      | some m, some wl, some rl =>
@@ -118,12 +127,19 @@ def step (w : St) (ws : List String) : St × String :=
          let size := c.length
          match (splitList arr).mapM (parseArrival size) with
          | none => (w, "bad-op")
-         | some arrivals =>
+         | some ups =>
+           let arrivals := ups.map (·.1)
            if !isPermOfRange (arrivals.map (·.idx)) cfg.writes.length then (w, "bad-op") else
            let out := receiveBlob cfg.min size arrivals
-           let atReturn := storeAt w.subs (idsOf cfg.writes (holdersAtReturn cfg.min size arrivals)) (k, size)
-           let held := sortNats (dedupNats (cfg.writes.filter (fun i => ((atReturn.getD i ⟨[], false⟩).store.has k))))
-           let final := storeAt w.subs (idsOf cfg.writes (completed cfg.min size arrivals lateRun)) (k, size)
+           let consumed := consumedAtReturn out arrivals.length
+           -- uploads that leave a truncated copy: those that ran before the return / all that ran
+           let trAt (m : Nat) := idsOf cfg.writes (((ups.take m).filter (·.2)).map (·.1.idx))
+           let atReturn := storeAt (storeAt w.subs (trAt consumed) (k, size - 1))
+             (idsOf cfg.writes (holdersAtReturn cfg.min size arrivals)) (k, size)
+           let held := sortNats (dedupNats (cfg.writes.filter (fun i =>
+             ((atReturn.getD i ⟨[], false⟩).store.get? k == some size))))
+           let final := storeAt (storeAt w.subs (trAt (if lateRun then ups.length else consumed)) (k, size - 1))
+             (idsOf cfg.writes (completed cfg.min size arrivals lateRun)) (k, size)
            let o := match out with
              | .ack _ _ => "ack"
              | .fail (.replica idx) => s!"err replica {idx}"
@@ -150,7 +166,8 @@ def step (w : St) (ws : List String) : St × String :=
        | some cfg =>
          if !(order.isEmpty || isPermOfRange order cfg.reads.length) then (w, "bad-op") else
          let reads := readsOf w cfg
-         let (out, ok) := statBlobs reads ks (seqReports reads ks)
+         let ord := if order.isEmpty then List.range reads.length else order
+         let (out, ok) := statBlobs reads ks (orderedReports reads ks ord)
          (w, s!"{showSRs (sortSRs out)} {if ok then "ok" else "err"}")
      | _, _ => (w, "bad-op"))
   | ["enum", after, limit] =>
